@@ -2,7 +2,7 @@
 
 use crate::ctx::{self, PreemptPlan};
 use crate::hashkeys;
-use crate::model::{Client, Op, Scenario};
+use crate::model::{Client, Fmt, Op, Scenario};
 use crate::sampler::{self, Built, GraphSpec, Sampler, Settings};
 use crate::sched::SchedKind;
 use crate::simrng::RngKind;
@@ -143,8 +143,8 @@ fn gen_rng_op(rng: &mut SplitMix, t: &Target) -> Op {
 }
 
 fn gen_restart(rng: &mut SplitMix, t: &Target) -> Op {
-    let json = t.image_finite && rng.chance(1, 3);
-    Op::Restart { json, behaviour: ReadBehaviour::random(rng), publish: rng.chance(1, 2) }
+    let fmt = Fmt::pick(rng, t.image_finite);
+    Op::Restart { fmt, behaviour: ReadBehaviour::random(rng), publish: rng.chance(1, 2) }
 }
 
 fn gen_mixed_op(rng: &mut SplitMix, t: &Target, probe: &Op, c18: bool) -> Op {
@@ -152,7 +152,7 @@ fn gen_mixed_op(rng: &mut SplitMix, t: &Target, probe: &Op, c18: bool) -> Op {
     if c18 {
         match r {
             0..=34 => gen_restart(rng, t),
-            35..=44 => Op::Persist { json: t.image_finite && rng.chance(1, 3) },
+            35..=44 => Op::Persist { fmt: Fmt::pick(rng, t.image_finite) },
             45..=69 => {
                 if rng.chance(1, 2) {
                     probe.clone()
@@ -178,9 +178,13 @@ fn gen_mixed_op(rng: &mut SplitMix, t: &Target, probe: &Op, c18: bool) -> Op {
                 };
                 Op::Aborted { point, ed, st, at: rng.below(400) }
             }
-            78..=81 => Op::CloneLocal,
+            78..=79 => Op::CloneLocal,
+            80..=81 => match gen_rng_op(rng, t) {
+                Op::SampleRng { seed, kind, ed, st } => Op::AbortedRng { seed, kind, ed, st, at: rng.below(60) },
+                o => o,
+            },
             82..=85 => Op::Build,
-            86..=88 => Op::Persist { json: t.image_finite && rng.chance(1, 3) },
+            86..=88 => Op::Persist { fmt: Fmt::pick(rng, t.image_finite) },
             89..=94 => gen_restart(rng, t),
             _ => Op::ImageCheck,
         }
